@@ -102,6 +102,9 @@ def value_of(p):
 
 
 STEPS = [
+    # a selection step handed the population list itself (not behind a combinator that copies it)
+    ("elitism-direct", lambda: ElitismStep()),
+    ("novelty-elitism", lambda: ParallelStep([NoveltyStep(), ElitismStep()], [1, 1])),
     ("default", lambda: default_generic_programming_step()),
     ("sel-xo-mut", lambda: SequenceStep(TournamentSelection(2), GenericCrossoverStep(1.0), GenericMutationStep(1.0))),
     ("par-elite-mut-novel", lambda: ParallelStep([ElitismStep(), GenericMutationStep(1.0), NoveltyStep()], [1, 2, 1])),
